@@ -53,7 +53,7 @@ for m in MS:
     H("f1_fast_m%d_1k" % m, "__verif::f1", "F1",
       quick=["C01", "C04", "C10", "C18"] if m in (1, 8, 16) else [],
       thorough=["C01", "C04", "C10", "C18"],
-      timeout=600, cost=30, stubs=STUB_CUT, inst="Bump<%d>" % m, funcs=F1_FUNCS,
+      timeout=600, cost=30, stubs=STUB_CUT, inst="Bump<%d>" % m, funcs=F1_FUNCS, exempt=[r"\[err\]"],
       bounds={"chunk_usable_bytes": "16..1024 (symbolic)", "chunk_base_residue": "any multiple of 16 below 1024",
               "request_size": "any usize accepted by Layout", "request_align": "1..4096", "allocator": "A-cut (slow path excluded)",
               "limit": "None", "unwind": 3})
@@ -66,7 +66,7 @@ for m in MS:
               "limit": "any Option<usize>", "unwind": 6})
     H("f1_fast_m%d_16k" % m, "__verif::f1", "F1",
       thorough=["C01", "C04", "C10", "C18"],
-      timeout=1200, cost=60, stubs=STUB_CUT, inst="Bump<%d>" % m, funcs=F1_FUNCS,
+      timeout=1200, cost=60, stubs=STUB_CUT, inst="Bump<%d>" % m, funcs=F1_FUNCS, exempt=[r"\[err\]"],
       bounds={"chunk_usable_bytes": "16..16384 (symbolic)", "chunk_base_residue": "every multiple of 16 mod 4096",
               "request_size": "any usize accepted by Layout", "request_align": "1..4096", "allocator": "A-cut",
               "limit": "None", "unwind": 3})
@@ -101,12 +101,13 @@ for m in MS:
           quick=(["C12", "C01"] if m in (1, 16) else []) + (["C04"] if (m == 8 and op != "dealloc") else []) + (["C02"] if (m == 1 and op != "dealloc") else []),
           thorough=["C01", "C02", "C04", "C12"], timeout=900, cost=40,
           stubs=STUB_CUT + STUB_COPY_RANGE, inst="&Bump<%d>" % m, funcs=F2_FUNCS,
+          exempt=[r"\[fail\]"] + ([r"\[(realloc|shrink|grow)\]"] if op == "dealloc" else [r"\[dealloc\]"]),
           bounds={"chunk_usable_bytes": "16..1024 (symbolic)", "operated_block": "any live block (any offset/size in the allocated region, align <= 4096), last or not",
                   "other_live_block": "any (symbolic range, disjoint)", "new_layout": "any size/align <= 4096 (>= old for grow, <= old for shrink)",
                   "allocator": "A-cut", "copies": "range-recording stubs; copy_nonoverlapping asserts non-overlap", "unwind": 3})
 for nm, m in (("f2_shrink_null_m1_1k", 1), ("f2_grow_null_m1_1k", 1), ("f2_grow_null_m16_1k", 16)):
     H(nm, "__verif::f2", "F2", quick=["C12"] if nm == "f2_grow_null_m1_1k" else [], thorough=["C12", "C09"], timeout=1200, cost=90,
-      stubs=STUB_NULL + STUB_COPY_RANGE, inst="&Bump<%d>" % m, funcs=F2_FUNCS + ["Bump::alloc_layout_slow"],
+      stubs=STUB_NULL + STUB_COPY_RANGE, inst="&Bump<%d>" % m, funcs=F2_FUNCS + ["Bump::alloc_layout_slow"], exempt=[r"\[dealloc\]"],
       bounds={"chunk_usable_bytes": "16..1024 (symbolic)", "allocator": "A-null (refuses everything)", "limit": "any Option<usize>", "unwind": 6})
 
 
@@ -163,17 +164,20 @@ F3_LIST = [
     (1, 1, 64, 64, 1, 32, 5, None, []),
     (1, 1, 0, 1, 0, 0, 5, None, [r"new chunk obtained|request failed"]),
     (1, 1, 900, 16, 3, 448, 5, None, []),
+    (8, 1, 448, 1, 0, 0, 5, None, []),
     (1, 2, 700, 8, 1, 600, 5, None, []),
     (16, 2, 700, 32, 1, 96, 5, None, []),
     (1, 0, 5, 1, 1, 0, 4, None, []),
     (16, 0, 0, 64, 1, 0, 4, None, []),
     (4, 0, 300, 2, 3, 0, 4, None, []),
+    (1, 0, 64, 64, 1, 0, 4, None, []),
     (1, 0, 5, 1, 0, 0, 14, 100, []),
     (8, 0, 0, 8, 1, 0, 14, 64, []),
     (1, 0, 1, 1, 0, 0, 14, 10, [r"new chunk obtained"]),
 ]
 F3_QUICK = {(1, 1, 400, 1, None): ["C01", "C03", "C07", "C08", "C09", "C18"], (16, 1, 1, 1, None): ["C04", "C03"],
-            (4, 0, 300, 2, None): ["C01", "C08", "C09"], (1, 0, 5, 1, 100): ["C07"], (8, 1, 100, 4, None): ["C04"]}
+            (4, 0, 300, 2, None): ["C01", "C08", "C09"], (1, 0, 5, 1, 100): ["C07"], (8, 1, 100, 4, None): ["C04"],
+            (8, 1, 448, 1, None): ["C09", "C18"]}
 for (m, k, sz, al, dp, off, uw, lim, ex) in F3_LIST:
     nm = "f3_commit_m%d_k%d_s%d_a%d_d%d" % (m, k, sz, al, dp) + ("" if lim is None else "_l%d" % lim)
     H(nm, "__verif::f3", "F3",
@@ -187,6 +191,11 @@ for (m, k, sz, al, dp, off, uw, lim, ex) in F3_LIST:
               "block_displacement": "%d x requested chunk alignment (concrete per instance)" % dp, "pool_slot_bytes": 1136,
               "block_placement": "end-aligned in the slot", "unwind": uw})
 
+
+for (m, sz, al, dp) in [(1, 64, 64, 1), (1, 10, 32, 3), (16, 100, 8, 1), (8, 600, 128, 0)]:
+    H("f3_new_chunk_m%d_s%d_a%d_d%d" % (m, sz, al, dp), "__verif::f3", "F3", quick=["C03", "C04", "C08"] if al >= 32 else ["C03"], thorough=["C01", "C03", "C04", "C08"],
+      timeout=900, cost=15, stubs=STUB_POOL, inst="Bump<%d>" % m, funcs=["Bump::new_chunk", "Bump::new_chunk_memory_details", "dealloc_chunk_list"],
+      bounds={"request": "size %d align %d (concrete)" % (sz, al), "block_displacement": "%d x alignment" % dp})
 
 # ---------------------------------------------------------------------------
 # F0 base case: real constructors
@@ -234,12 +243,12 @@ for m in (1, 16):
     _f7("f7_tw_same_inf_m%d" % m, ["C11"] if m == 1 else [], ["C11", "C02"], STUB_CUT, F7TW,
         {"chunk": "256-byte chunk, symbolic start/finger", "value": "Result<u64, E(u32, D)>", "allocator": "A-cut"}, "Bump<%d>, alloc_try_with" % m, cost=120)
 for nm, m in (("f7_tw_newchunk_try_m8", 8), ("f7_tw_newchunk_inf_m4", 4), ("f7_tw_newchunk_inf_m16", 16)):
-    _f7(nm, ["C11"] if m == 16 else [], ["C11", "C10"], STUB_POOL, F7TW + ["Bump::alloc_layout_slow", "Bump::new_chunk"],
+    _f7(nm, ["C11", "C03"] if m == 16 else [], ["C11", "C10", "C03"], STUB_POOL, F7TW + ["Bump::alloc_layout_slow", "Bump::new_chunk"],
         {"pre_state": "one 448-byte chunk with 16 bytes free (concrete)", "value": "Result<[u8;200], E>", "allocator": "A-pool, nothing refused"}, "Bump<%d>" % m, cost=60)
 for nm, m in (("f7_tw_nested_keep_m1", 1), ("f7_tw_nested_keep_m16", 16), ("f7_tw_nested_release_m1", 1), ("f7_tw_nested_release_m8", 8)):
     _f7(nm, ["C11"] if m == 1 else [], ["C11", "C01", "C02"], STUB_CUT, F7TW + ["Bump::alloc", "<&Bump as Allocator>::deallocate"],
         {"chunk": "256-byte chunk, concrete finger", "initialiser": "allocates a u32 (symbolic value), keeps or releases it, then fails"}, "Bump<%d>" % m, cost=30)
-for nm, m in (("f7_try_fill_with_m1", 1), ("f7_try_fill_with_m8", 8), ("f7_try_fill_iter_m1", 1)):
+for nm, m in (("f7_try_fill_with_m1", 1), ("f7_try_fill_with_m8", 8), ("f7_try_fill_iter_m1", 1), ("f7_try_fill_with_tiny_m1", 1), ("f7_try_fill_with_tiny_m8", 8)):
     _f7(nm, ["C11", "C02"] if m == 1 else [], ["C11", "C02"], STUB_CUT, ["Bump::alloc_slice_try_fill_with", "Bump::alloc_slice_try_fill_iter", "Bump::dealloc"],
         {"chunk": "256-byte chunk, finger in {0,16,100,256}", "len": "0..3 (3 for the iterator form)", "failing_index": "any or none", "element": "u32"}, "Bump<%d>" % m, cost=60)
 F7I = {"values": (0, ["Bump::alloc", "Bump::alloc_with", "Bump::try_alloc", "Bump::try_alloc_with"]),
@@ -265,6 +274,52 @@ for nm, m in (("chunk", 1), ("chunk", 8), ("chunk", 16), ("fresh", 1), ("fresh",
       funcs=["Bump::try_alloc_layout", "Bump::set_allocation_limit", "Bump::iter_allocated_chunks", "Bump::reset", "<Bump as Drop>::drop", "Cell::set (monitored)"],
       bounds={"arena_A": "chunk-less" if nm == "fresh" else "one chunk, symbolic geometry (<= 1 KiB)", "arena_B": "chunk-less or one 256-byte chunk (symbolic), any limit",
               "operation_on_A": "one of {try_alloc_layout(any layout), set_allocation_limit(any), iterate, reset, drop}", "threads": "none (sequential footprint only)"})
+
+
+# ---------------------------------------------------------------------------
+# V1/V2/V3 collections::Vec (C13)
+# ---------------------------------------------------------------------------
+STUB_LOOPS = ["core::ptr::copy_nonoverlapping->cno_loop", "core::ptr::copy->copy_loop"]
+V1 = [("push", 0), ("push", 2), ("push", 4), ("pop", 0), ("pop", 3), ("insert", 2), ("insert", 4), ("remove", 3), ("remove", 4), ("swap_remove", 3),
+      ("truncate", 3), ("clear", 3), ("resize", 2), ("extend_copy", 3), ("extend_slices", 2), ("append", 3), ("split_off", 3),
+      ("drain", 3), ("drain", 4), ("retain", 3), ("dedup", 3), ("dedup_key", 4), ("reserve", 2), ("reserve", 4), ("shrink", 2),
+      ("into_iter", 3), ("into_iter", 0), ("into_slice", 3)]
+V1_QUICK = {("push", 4), ("pop", 3), ("insert", 2), ("remove", 3), ("swap_remove", 3), ("truncate", 3), ("extend_copy", 3), ("split_off", 3), ("drain", 3),
+            ("retain", 3), ("dedup", 3), ("reserve", 2)}
+for (op, l) in V1:
+    H("v1_%s_l%d" % (op, l), "__verif::v1", "V1", quick=["C13"] if (op, l) in V1_QUICK else [], thorough=["C13"] + (["C18"] if op == "reserve" else []),
+      exempt=[r"end of harness \((?!%s\))" % (op if op in ("into_iter", "into_slice") else "other")],
+      timeout=1500, cost=40, stubs=STUB_CUT + STUB_LOOPS, inst="Vec<u8>", funcs=["collections::Vec::%s" % op, "RawVec::reserve/double/realloc path", "Bump::{alloc,realloc,grow,shrink}"],
+      bounds={"capacity_before": 4, "length_before": l, "elements": "symbolic u8", "arguments": "symbolic (in range)", "operation": op, "chunk": "256-byte chunk, concrete finger, a canary block below"})
+for (op, l) in [("insert", 2), ("remove", 2), ("swap_remove", 0), ("split_off", 3), ("drain", 3), ("index", 3)]:
+    H("v2_%s_l%d" % (op, l), "__verif::v1", "V2", quick=["C13"] if op in ("insert", "drain", "remove") else [], thorough=["C13"], timeout=900, cost=20,
+      stubs=STUB_CUT + STUB_LOOPS, inst="Vec<u8>", funcs=["collections::Vec::%s" % op],
+      allow=[r"index|out of bounds|assertion failed|range|slice|should be|removal|insertion|`at`"],
+      bounds={"length": l, "index": "any OUT-OF-RANGE value", "expectation": "the call does not return"})
+H("v3_neighbours", "__verif::v1", "V3", quick=["C13"], thorough=["C13", "C01"], timeout=900, cost=40, stubs=STUB_CUT + STUB_LOOPS, inst="2 x Vec<u8>",
+  funcs=["collections::Vec::push (growth)", "Bump::realloc/grow"], bounds={"vectors": "two, capacity 2 -> 4, either grows", "elements": "symbolic"})
+
+
+# ---------------------------------------------------------------------------
+# E1 size-taking entry points, full-width counts (C19, C09)
+# ---------------------------------------------------------------------------
+PANIC_OK = [r"capacity overflow|out of memory|requested allocation size overflowed|encountered allocation error|placeholder message; Kani doesn"]
+for t in ("u8", "u16", "a3", "u64", "a4096"):
+    H("e1_try_slice_%s" % t, "__verif::e1", "E1", quick=["C19"] + (["C09"] if t in ("u64", "a3") else []), thorough=["C19", "C09"], cost=15, stubs=STUB_NULL,
+      inst="T=%s" % t, funcs=["Bump::try_alloc_slice_fill_with", "Bump::try_alloc_slice_fill_copy", "Bump::try_alloc_slice_fill_default", "Layout::array"],
+      bounds={"len": "any usize with len*size_of::<T>() > 256 (what the arena holds)", "arena": "one empty 256-byte chunk, A-null"})
+for t in ("u8", "u64", "a3"):
+    H("e1_inf_slice_%s" % t, "__verif::e1", "E1", quick=["C19"] if t == "u64" else [], thorough=["C19", "C09"], cost=15, stubs=STUB_NULL, allow=PANIC_OK,
+      inst="T=%s" % t, funcs=["Bump::alloc_slice_fill_with"], bounds={"len": "any impossible length", "expectation": "does not return"})
+for nm, q in (("vec_with_capacity_u8", 0), ("vec_with_capacity_u64", 1), ("vec_reserve_u64", 1), ("vec_reserve_a3", 0), ("vec_reserve_exact_u16", 0),
+              ("string_with_capacity", 1), ("string_reserve", 0)):
+    H("e1_" + nm, "__verif::e1", "E1", quick=["C19"] if q else [], thorough=["C19"], cost=20, stubs=STUB_NULL, allow=PANIC_OK, inst=nm,
+      funcs=["collections::Vec/String capacity entry points", "RawVec::allocate_in", "RawVec::reserve_internal", "alloc_guard"],
+      bounds={"capacity": "any impossible value", "expectation": "does not return"})
+for nm, q in (("vec_try_reserve_u64", 0), ("vec_try_reserve_a3", 0), ("vec_try_reserve_used_u8", 0), ("vec_try_reserve_used_u64", 0)):
+    H("e1_" + nm, "__verif::e1", "E1", quick=["C19"] if q else [], thorough=["C19"], cost=400, timeout=2400, mem_gb=24, stubs=STUB_NULL, inst=nm,
+      funcs=["collections::Vec::try_reserve", "collections::Vec::try_reserve_exact", "RawVec::reserve_internal", "RawVec::amortized_new_size", "alloc_guard"],
+      bounds={"additional": "any impossible value"})
 
 
 def by_name(n):
